@@ -101,5 +101,16 @@ Files(L, layout) ==
     [] layout = "samename" -> << [name |-> "main.mal", toks |-> d[1] \o Include("x/p.mal") \o Include("y/p.mal")],
                                  [name |-> "x/p.mal", toks |-> Include("a.mal")], [name |-> "x/a.mal", toks |-> partA],
                                  [name |-> "y/p.mal", toks |-> Include("a.mal")], [name |-> "y/a.mal", toks |-> partB] >>
-Layouts == {"single", "star", "chain", "middle", "repeat", "subdir", "samename"}
+    \* the SAME file reached through two spellings of its path ("a.mal" from the root, "../a.mal" from a sub-directory)
+    [] layout = "dotdot" -> << [name |-> "main.mal", toks |-> d[1] \o Include("a.mal") \o Include("sub/b.mal")],
+                               [name |-> "a.mal", toks |-> partA],
+                               [name |-> "sub/b.mal", toks |-> Include("../a.mal") \o partB] >>
+    \* one file, no include: every asset opens its category in a block of its own (the same category several times)
+    [] layout = "splitcat" -> << [name |-> "main.mal", toks |-> DefineToks(L)
+                                    \o Flat([i \in DOMAIN L.assets |->
+                                              LET c == CHOOSE c \in Range(L.categories) : c.name = L.assets[i].category IN
+                                              <<K("CATEGORY"), KV("ID", c.name)>> \o MetaToks(c.meta) \o <<K("LCURLY")>>
+                                                \o AssetToks(L.assets[i]) \o <<K("RCURLY")>>])
+                                    \o AssocBlock(L.assocs)] >>
+Layouts == {"single", "star", "chain", "middle", "repeat", "subdir", "samename", "dotdot", "splitcat"}
 =============================================================================
